@@ -1193,6 +1193,7 @@ class DiskRefsContainer(RefsContainer):
         self._check_refname(name)
         self._check_refname(other)
         filename = self.refpath(name)
+        self._check_packed_ref_conflict(name, filename, self.get_packed_refs())
         f = GitFile(filename, "wb")
         try:
             f.write(SYMREF + other + b"\n")
@@ -1211,6 +1212,26 @@ class DiskRefsContainer(RefsContainer):
             raise
         else:
             f.close()
+
+    def _check_packed_ref_conflict(
+        self, name: Ref, filename: bytes, packed_refs: Mapping[Ref, ObjectID]
+    ) -> None:
+        """Refuse a name that collides, as file versus directory, with a packed ref.
+
+        Loose refs collide in the file system by themselves; packed refs
+        have to be checked explicitly.
+        """
+        # none of the ancestor folders may be a packed ref
+        probe_ref = Ref(os.path.dirname(name))
+        while probe_ref:
+            if packed_refs.get(probe_ref, None) is not None:
+                raise NotADirectoryError(filename)
+            probe_ref = Ref(os.path.dirname(probe_ref))
+        # and no packed ref may live below the name
+        prefix = name + b"/"
+        for other in packed_refs:
+            if other.startswith(prefix):
+                raise IsADirectoryError(filename)
 
     def set_if_equals(
         self,
@@ -1247,13 +1268,9 @@ class DiskRefsContainer(RefsContainer):
             realname = name
         filename = self.refpath(realname)
 
-        # make sure none of the ancestor folders is in packed refs
-        probe_ref = Ref(os.path.dirname(realname))
+        # make sure the name does not collide with a packed ref
         packed_refs = self.get_packed_refs()
-        while probe_ref:
-            if packed_refs.get(probe_ref, None) is not None:
-                raise NotADirectoryError(filename)
-            probe_ref = Ref(os.path.dirname(probe_ref))
+        self._check_packed_ref_conflict(realname, filename, packed_refs)
 
         ensure_dir_exists(os.path.dirname(filename))
         with GitFile(filename, "wb") as f:
@@ -1330,6 +1347,7 @@ class DiskRefsContainer(RefsContainer):
             realname = name
         self._check_refname(realname)
         filename = self.refpath(realname)
+        self._check_packed_ref_conflict(realname, filename, self.get_packed_refs())
         ensure_dir_exists(os.path.dirname(filename))
         with GitFile(filename, "wb") as f:
             if os.path.exists(filename) or name in self.get_packed_refs():
